@@ -71,6 +71,12 @@ impl Property for C19 {
         let observable = rng.chance(1, 2);
         let join = kind.starts_with("join");
         let query = match kind {
+            "follow" if rng.chance(1, 3) => {
+                // follow mode with an aggregate: every delivered line refreshes the table
+                let mut q = sqlgen::gen_aggregate(rng, &cfg, &AggCfg { order_insensitive: false, allow_join: false, max_aggs: 2 });
+                q.having = None;
+                q
+            }
             "select" | "follow" => {
                 if observable {
                     let mut q = sqlgen::Query::default();
@@ -270,6 +276,7 @@ impl Property for C19 {
                 base_records.len() - (format == "csv" && !base_records.is_empty()) as usize == all_lines.len()
             };
 
+        let mut follow_reference: BTreeMap<usize, Vec<u8>> = BTreeMap::new();
         // interrupt positions
         let mut positions: Vec<Interrupt> = (0..=base.log.len()).map(Interrupt::AtEvent).collect();
         let prints = base.log.iter().filter(|e| matches!(e.kind, EvKind::Print | EvKind::Write)).count();
@@ -313,14 +320,27 @@ impl Property for C19 {
             } else if let Some(e) = res.interrupted_at {
                 let served_before = lines_served_before(&res, &main_contents, e);
                 if follow {
-                    let recs = stdout_lines(&res);
-                    // lines whose read happened before the interrupt may be printed, nothing later
-                    if recs.len() > base_records.len() || recs[..] != base_records[..recs.len()] {
+                    // judged on the raw byte stream (an aggregate refresh may consist of the clear-screen sequence only)
+                    if !base.stdout.starts_with(&res.stdout) {
+                        let recs = stdout_lines(&res);
                         fail(&mut out, "c19.not_a_prefix", format!("printed {} which is not a prefix of the uninterrupted output {}", show(&recs), show(&base_records)));
                     } else {
-                        let allowed = lines_to_records(&base, &follow_content, served_before, &base_records);
-                        if recs.len() > allowed {
-                            fail(&mut out, "c19.consumed_after_interrupt", format!("{} records printed although only {} lines had been served before the interrupt", recs.len(), served_before));
+                        // lines whose read happened before the interrupt may be printed, nothing later: whatever is
+                        // printed must be a prefix of what an uninterrupted follower prints for exactly those lines
+                        // (a separate world, because stdout is line buffered and attributing unflushed bytes of the
+                        // base run to input lines would be guesswork)
+                        let allowed = match follow_reference.get(&served_before) {
+                            Some(a) => a.clone(),
+                            None => {
+                                let mut rspec = make_spec(None);
+                                rspec.appends.truncate(served_before);
+                                let r = run(&mut out, &format!("follow reference over first {} lines", served_before), &rspec, false);
+                                follow_reference.insert(served_before, r.stdout.clone());
+                                r.stdout
+                            }
+                        };
+                        if !allowed.starts_with(&res.stdout) {
+                            fail(&mut out, "c19.consumed_after_interrupt", format!("{} bytes were printed, more than an uninterrupted follower prints for the {} lines served before the interrupt ({} bytes)", res.stdout.len(), served_before, allowed.len()));
                         }
                         let later_lines = lines_served_from(&res, &main_contents, e);
                         if later_lines > 1 {
@@ -404,33 +424,6 @@ impl Property for C19 {
 /// stdout of a follow world as non-empty lines
 pub fn stdout_lines(res: &WorldResult) -> Vec<String> {
     String::from_utf8_lossy(&res.stdout).split('\n').filter(|l| !l.is_empty()).map(|l| l.to_owned()).collect()
-}
-
-/// How many of the uninterrupted run's records stem from the first `lines` input lines
-/// (follow mode, lockstep writer: records are attributed through the event order).
-fn lines_to_records(base: &WorldResult, content: &[u8], lines: usize, base_records: &[String]) -> usize {
-    // the read of the base run that completes line number `lines` + 1: everything printed before it
-    // stems from the first `lines` lines
-    let mut cut = base.log.len();
-    for (seq, e) in base.log.iter().enumerate() {
-        if e.kind == EvKind::Read && e.ret > 0 {
-            let after = (e.off + e.ret as usize).min(content.len());
-            if content[..after].iter().filter(|b| **b == b'\n').count() > lines {
-                cut = seq;
-                break;
-            }
-        }
-    }
-    // stdout bytes written before `cut`
-    let mut bytes = 0;
-    for e in base.log.iter().take(cut) {
-        if e.kind == EvKind::Write {
-            bytes = e.len;
-        }
-    }
-    let text = String::from_utf8_lossy(&base.stdout[..bytes.min(base.stdout.len())]).into_owned();
-    let n = text.split('\n').filter(|l| !l.is_empty()).count();
-    n.min(base_records.len())
 }
 
 /// value of the `cnt` column of a single-row aggregate result
